@@ -132,8 +132,12 @@ def gen_config(rng, kind="sim", allow_face=True):
     seen = set()
     cen = [rng.uniform(-b / 2, b / 2) for b in (bx, by, bz)]
     massless_ok = collision == "none"      # two colliding massless hard spheres give NaN velocities (C13's business)
+    tries = 0
     while len(parts) < n:
+        tries += 1
         pm = posmode if posmode != "mixed" else rng.choice(["uniform", "cluster", "dyadic"])
+        if tries > 20 * n + 100:
+            pm = "uniform"          # a coarse dyadic grid has too few distinct sites
         pos = []
         for a, (b, nr) in enumerate(((bx, nx), (by, ny), (bz, nz))):
             if pm == "uniform":
@@ -406,10 +410,46 @@ def evaluate_tree(cfg, sim, out, where, want_model, step):
                          dict(cfg=cfg, step=step, errors=[e[1] for e in errs[:5]])))
         out.inc("tree_invariant_failures")
         return
+    if want_model and cfg["gravity"] == "tree" and 2 <= len(parts) <= 160:
+        check_walk(cfg, sim, parts, out, where, step)
     if want_model and not any(f18_class(cfg, p) for p in parts):
         out.lines.append((model_line(cfg, parts, True), dump_str(cells),
                           dict(where=where, step=step, N=len(parts), tie=face_tie(cells, parts),
                                box=[cfg["rs"], cfg["nx"], cfg["ny"], cfg["nz"]], boundary=cfg["boundary"])))
+
+
+def check_walk(cfg, sim, parts, out, where, step):
+    """the tree walk of the real gravity routine with opening angle 0 must see every other particle exactly once:
+    accelerations = brute-force pair sum (fsum), no ghost boxes"""
+    n = len(parts)
+    old = sim.opening_angle2
+    sim.opening_angle2 = 0.0
+    _clib.reb_calculate_acceleration(ctypes.byref(sim))
+    sim.opening_angle2 = old
+    A = (ctypes.c_double * (3 * n + 3))()
+    if _lib.c15_acc(ctypes.byref(sim), A, n + 1) != n:
+        return
+    G = sim.G
+    s2 = sim.softening ** 2
+    out.inc("walk_checks")
+    for i in range(n):
+        pi = parts[i]
+        tx, ty, tz = [], [], []
+        for j in range(n):
+            if j == i:
+                continue
+            pj = parts[j]
+            dx, dy, dz = pi["x"] - pj["x"], pi["y"] - pj["y"], pi["z"] - pj["z"]
+            r2 = dx * dx + dy * dy + dz * dz + s2
+            f = -G * pj["m"] / (r2 * math.sqrt(r2))
+            tx.append(f * dx); ty.append(f * dy); tz.append(f * dz)
+        for a, terms, got in (("x", tx, A[3 * i]), ("y", ty, A[3 * i + 1]), ("z", tz, A[3 * i + 2])):
+            want = math.fsum(terms)
+            scale = math.fsum(abs(t) for t in terms)
+            if not abs(got - want) <= 1e-9 * scale + 1e-300:
+                out.viol.append(("walk-theta0", "%s: tree gravity with opening angle 0 gives a%s=%r for particle %d, the sum over all other particles is %r"
+                                 % (where, a, got, i, want), dict(cfg=cfg, step=step)))
+                return
 
 
 def inside_box(cfg, p):
